@@ -51,8 +51,8 @@ JSON
   rm -f "$LOG"
   exit 2
 fi
-if { [ "$ID" = "C04" ] || [ "$ID" = "c04" ]; } && [ "${2:-}" = "thorough" ]; then
-  build dev0 || true   # unoptimised workers for the thorough C04 pass (skipped there if missing)
+if [ "$ID" = "C04" ] || [ "$ID" = "c04" ]; then
+  build dev0 || true   # unoptimised workers: stress shapes (both tiers) and a sample of hostile files
 fi
 if [ "$ID" = "C16" ] || [ "$ID" = "c16" ]; then
   # extra build profiles for the cross-profile differential, and the Send+Sync crate
